@@ -109,6 +109,8 @@ CHECKS = {
          "DESIGN.md section 3 C12"),
 }
 
+FUZZ = {"C01", "C02", "C03", "C04", "C05", "C06", "C07", "C09", "C12", "C13", "C16", "C17", "C19", "C20"}
+
 NOT_BUILT_REASON = "check not built yet in this round (planned: see DESIGN.md section 3); not claimed"
 
 def main():
@@ -119,6 +121,9 @@ def main():
         if pid not in CHECKS or not os.path.exists(f"/verif/harness/src/bin/{pid.lower()}.rs"):
             continue
         level, tech, text, note, ref = CHECKS[pid]
+        if pid in FUZZ:
+            tech += "; thorough tier continues with a coverage-guided libFuzzer campaign (cargo-fuzz target harness/fuzz/fuzz_targets/%s.rs) over a byte decoder of the same case type, with the same oracle, signatures, shrinking and replay files" % pid.lower()
+            text += " Thorough: followed by a libFuzzer campaign (fork mode on all cores, default 600 s, VCHECK_FUZZ_SECS) whose inputs are decoded into cases of this check; artifacts are judged by the release-build replay (DESIGN.md section 2.1a)."
         checks.append({
             "property_id": pid,
             "quick_cmd": f"./check {pid} quick",
@@ -147,6 +152,11 @@ def main():
             "path": "/verif/harness",
             "serves_properties": sorted(claimed),
             "kind_free_text": "Rust crate: proptest strategies + exhaustive enumerators + explicit oracles, 16 worker processes, shrinking, replay files, known findings (see DESIGN.md section 2)",
+        }, {
+            "name": "vcheck-fuzz",
+            "path": "/verif/harness/fuzz",
+            "serves_properties": sorted(FUZZ & claimed),
+            "kind_free_text": "cargo-fuzz crate (libFuzzer, no sanitizer, debug assertions on): one target per property that includes the property's binary source and feeds engine::fuzz_one; driven by tools/fuzz_tier.py from ./check <id> thorough (DESIGN.md section 2.1a)",
         }],
         "checks": checks,
         "not_applicable": na,
